@@ -599,19 +599,42 @@ func main() {
 		return
 	}
 
+	// the families are interleaved so that the judge's shards (cut in emission order) carry
+	// similar amounts of large terms
 	kinds := []string{"enc", "enc", "dec", "dec", "round", "round", "frame", "stream", "mpub", "mpub", "mpub"}
-	for k := 0; k < *n; k++ {
-		kind := kinds[k%len(kinds)]
-		run(caseIn{Kind: kind, Seed: r.U64()}, fmt.Sprintf("%s-%d", kind, k))
-	}
-	for k := 0; k < *nhttp; k++ {
-		run(caseIn{Kind: "http", Seed: r.U64()}, fmt.Sprintf("http-%d", k))
-	}
-	for k := 0; k < *nlive; k++ {
-		run(caseIn{Kind: "live", Seed: r.U64()}, fmt.Sprintf("live-%d", k))
-	}
-	for k := 0; k < *nbig; k++ {
-		run(caseIn{Kind: "livebig", Seed: r.U64()}, fmt.Sprintf("livebig-%d", k))
+	total := *n + *nhttp + *nlive + *nbig
+	pk, hk, lk, bk := 0, 0, 0, 0
+	for i := 0; i < total; i++ {
+		// largest remaining share first (a simple weighted round-robin)
+		type fam struct {
+			done, want int
+			name       string
+		}
+		fams := []fam{{pk, *n, "pure"}, {hk, *nhttp, "http"}, {lk, *nlive, "live"}, {bk, *nbig, "livebig"}}
+		best, bestv := -1, 2.0
+		for j, f := range fams {
+			if f.done < f.want {
+				v := float64(f.done) / float64(f.want)
+				if v < bestv {
+					best, bestv = j, v
+				}
+			}
+		}
+		switch fams[best].name {
+		case "pure":
+			kind := kinds[pk%len(kinds)]
+			run(caseIn{Kind: kind, Seed: r.U64()}, fmt.Sprintf("%s-%d", kind, pk))
+			pk++
+		case "http":
+			run(caseIn{Kind: "http", Seed: r.U64()}, fmt.Sprintf("http-%d", hk))
+			hk++
+		case "live":
+			run(caseIn{Kind: "live", Seed: r.U64()}, fmt.Sprintf("live-%d", lk))
+			lk++
+		default:
+			run(caseIn{Kind: "livebig", Seed: r.U64()}, fmt.Sprintf("livebig-%d", bk))
+			bk++
+		}
 	}
 	out.Stat("live_cases_skipped_after_failures", skipped)
 	out.Stat("feature_combinations_exercised", len(featSeen))
